@@ -26,11 +26,11 @@ package queue
 //@ func (*sortedFile).unlink inline
 //@   on return assert neighbours-are-joined: old(f.prev) != f && old(f.next) != f && (old(f.prev) == nil || old(f.prev) != old(f.next)) ==> (old(f.prev) != nil ==> old(f.prev).next == old(f.next) && f.prev == nil) && (old(f.next) != nil ==> old(f.next).prev == old(f.prev) && f.next == nil) && (old(f.prev) == nil ==> f.prev == nil) && (old(f.next) == nil ==> f.next == nil)
 //@   modifies allof(sortedFile).next, allof(sortedFile).prev
-//@ func (*sortedFile).insertAfter inline
-//@   on return assert linked-behind: prev != nil && prev != f && old(prev.next) != f && old(prev.prev) != f && old(f.next) != prev && old(f.prev) != prev && old(f.prev) != f && old(f.next) != f && (old(f.prev) == nil || old(f.prev) != old(f.next)) ==> f.prev == prev && prev.next == f && f.next == old(prev.next) && (old(prev.next) != nil ==> old(prev.next).prev == f) && (old(f.prev) != nil ==> old(f.prev).next == old(f.next)) && (old(f.next) != nil && old(f.next) != old(prev.next) ==> old(f.next).prev == old(f.prev))
+//@ func (*sortedFile).insertAfter
+//@   ensures linked-behind: prev != nil && prev != f && old(prev.next) != f && old(prev.prev) != f && old(f.next) != prev && old(f.prev) != prev && old(f.prev) != f && old(f.next) != f && (old(f.prev) == nil || old(f.prev) != old(f.next)) ==> f.prev == prev && prev.next == f && f.next == old(prev.next) && (old(prev.next) != nil ==> old(prev.next).prev == f) && (old(f.prev) != nil ==> old(f.prev).next == old(f.next)) && (old(f.next) != nil && old(f.next) != old(prev.next) ==> old(f.next).prev == old(f.prev))
 //@   modifies allof(sortedFile).next, allof(sortedFile).prev
-//@ func (*sortedFile).insertBefore inline
-//@   on return assert linked-in-front: next != nil && next != f && old(next.prev) != f && old(next.next) != f && old(f.next) != next && old(f.prev) != next && old(f.prev) != f && old(f.next) != f && (old(f.prev) == nil || old(f.prev) != old(f.next)) ==> f.next == next && next.prev == f && f.prev == old(next.prev) && (old(next.prev) != nil ==> old(next.prev).next == f) && (old(f.next) != nil ==> old(f.next).prev == old(f.prev)) && (old(f.prev) != nil && old(f.prev) != old(next.prev) ==> old(f.prev).next == old(f.next))
+//@ func (*sortedFile).insertBefore
+//@   ensures linked-in-front: next != nil && next != f && old(next.prev) != f && old(next.next) != f && old(f.next) != next && old(f.prev) != next && old(f.prev) != f && old(f.next) != f && (old(f.prev) == nil || old(f.prev) != old(f.next)) ==> f.next == next && next.prev == f && f.prev == old(next.prev) && (old(next.prev) != nil ==> old(next.prev).next == f) && (old(f.next) != nil ==> old(f.next).prev == old(f.prev)) && (old(f.prev) != nil && old(f.prev) != old(next.prev) ==> old(f.prev).next == old(f.next))
 //@   modifies allof(sortedFile).next, allof(sortedFile).prev
 //@ func (*sortedGroup).addAfter inline
 //@   on return assert linked-behind: prev != nil && prev != g && old(prev.next) != g ==> g.prev == prev && prev.next == g && g.next == old(prev.next) && (old(prev.next) != nil ==> old(prev.next).prev == g)
@@ -113,6 +113,30 @@ package queue
 // the position of a new file in its group (binary search with these predicates): by name for alpha
 // tags; by modification time for fifo (oldest first) and lifo (newest first) tags, the name deciding
 // only between files of exactly the same time
+// addFile: the new file goes where the binary search with the tag's order predicate says (behind the
+// last one for unordered tags); the files in front keep their places; the chain is linked to match the
+// list (behind the list predecessor, or in front of the old first file, or behind the kept head when the
+// list was empty); the head is the first of the list
+//@ func (*Tagged).addFile
+//@   requires file != nil && file.group != nil && file.group.conf != nil && file.orig != nil && q.byFile != q.headFile
+//@   before call sort.Search assert searches-the-whole-group: (has(old(q.list), file.group.name) ==> arg0 == len(old(q.list[file.group.name]))) && (!has(old(q.list), file.group.name) ==> arg0 == 0)
+//@   on callback return assert alpha-is-by-name: order == sts.OrderAlpha ==> r0 == (list[i].orig.GetName() > file.orig.GetName())
+//@   on callback return assert same-time-is-by-name: order != sts.OrderAlpha && list[i].orig.GetTime() == file.orig.GetTime() ==> r0 == (list[i].orig.GetName() > file.orig.GetName())
+//@   on callback return assert fifo-is-oldest-first: order == sts.OrderFIFO && list[i].orig.GetTime() != file.orig.GetTime() ==> r0 == (list[i].orig.GetTime() > file.orig.GetTime())
+//@   on callback return assert lifo-is-newest-first: order == sts.OrderLIFO && list[i].orig.GetTime() != file.orig.GetTime() ==> r0 == (list[i].orig.GetTime() < file.orig.GetTime())
+//@   on return assert registered-by-name: q.byFile[file.orig.GetName()] == file
+//@   on return assert first-of-the-list-is-head: (old(q.headFile[file.group.name]) == nil) == (len(old(q.list[file.group.name])) == 0) ==> q.headFile[file.group.name] == q.list[file.group.name][0]
+//@   on return assert list-grows-by-this-file: len(q.list[file.group.name]) == len(old(q.list[file.group.name])) + 1
+//@   on return assert placed-where-the-search-says: called(sort.Search) ==> q.list[file.group.name][lastret(sort.Search, 0)] == file
+//@   on return assert unordered-is-appended: !called(sort.Search) ==> q.list[file.group.name][len(q.list[file.group.name]) - 1] == file
+//@   on return assert ordered-tags-are-searched: old(q.headFile[file.group.name]) != nil && (file.group.conf.Order == sts.OrderAlpha || file.group.conf.Order == sts.OrderFIFO || file.group.conf.Order == sts.OrderLIFO) ==> called(sort.Search)
+//@   on return assert files-in-front-stay: called(sort.Search) ==> forall(k, 0, lastret(sort.Search, 0), q.list[file.group.name][k] == old(q.list[file.group.name][k]))
+//@   on return assert linked-behind-the-file-in-front: called(sort.Search) && lastret(sort.Search, 0) > 0 ==> called((*sortedFile).insertAfter) && lastarg((*sortedFile).insertAfter, 0) == file && lastarg((*sortedFile).insertAfter, 1) == q.list[file.group.name][lastret(sort.Search, 0) - 1] && !called((*sortedFile).insertBefore)
+//@   on return assert linked-in-front-of-the-old-first: called(sort.Search) && lastret(sort.Search, 0) == 0 && len(old(q.list[file.group.name])) > 0 ==> called((*sortedFile).insertBefore) && lastarg((*sortedFile).insertBefore, 0) == file && lastarg((*sortedFile).insertBefore, 1) == q.list[file.group.name][1] && !called((*sortedFile).insertAfter)
+//@   on return assert unordered-is-linked-behind-the-last: !called(sort.Search) && len(old(q.list[file.group.name])) > 0 && old(q.headFile[file.group.name]) != nil ==> called((*sortedFile).insertAfter) && lastarg((*sortedFile).insertAfter, 0) == file && lastarg((*sortedFile).insertAfter, 1) == q.list[file.group.name][len(q.list[file.group.name]) - 2]
+//@   on return assert lone-file-goes-behind-the-kept-head: old(q.headFile[file.group.name]) != nil && len(old(q.list[file.group.name])) == 0 ==> called((*sortedFile).insertAfter) && lastarg((*sortedFile).insertAfter, 0) == file && lastarg((*sortedFile).insertAfter, 1) == old(q.headFile[file.group.name]) && !called((*sortedFile).insertBefore)
+//@   on return assert linked-once: ncalls((*sortedFile).insertAfter) + ncalls((*sortedFile).insertBefore) <= 1
+//@   modifies everything
 //@ func (*Tagged).addFile$1
 //@   on return assert by-name: r0 == (list[i].orig.GetName() > file.orig.GetName())
 //@   modifies nothing
